@@ -305,6 +305,13 @@ add(property='C14', id='C14-unscaled-bounds', status='fixed', commit='1591c67', 
                 'variables': [{'type': 'radius', 's': 0, 'scaled': False, 'bounded': True, 'axis': 'x'}],
                 'opt': 'generic', 'pickup': False, 'second': 'generic'})
 
+add(property='C15', id='C15-monte-carlo-no-reset', status='fixed', commit='e92728b', clause='lens_nominal_after_run',
+    what='fixed: property=C15 e92728b MonteCarlo.run() left the lens in the perturbed state of the last trial',
+    reproducer={'spec': _c14_spec, 'operands': [{'type': 'f2', 'h': 0.0}],
+                'perts': [{'type': 'radius', 's': 0, 'axis': 'x', 'sampler': 'normal', 'mag': 0.01, 'steps': 3, 'seed': 5},
+                          {'type': 'thickness', 's': 0, 'axis': 'x', 'sampler': 'uniform', 'mag': 0.02, 'steps': 3, 'seed': 6}],
+                'comp': 'none', 'method': 'generic', 'mode': 'monte_carlo', 'iters': 3})
+
 for _e in F:
     if _e['id'] == 'C13-caller-arrays':
         _e['reproducer']['spec']['fields'][1].update(vx=0.2, vy=0.3)
